@@ -4,7 +4,8 @@
 (* of LimK identical requests served by the same mux / proxy instance:                            *)
 (*     Route      mux.search: with a route cache (cacheSize > 0) the first request puts the route  *)
 (*                it found into the cache, the following ones are served from the cache           *)
-(*     Select     mux.serveHTTP / ServerPool.buildResponse pick the configured value              *)
+(*     Select     mux.serveHTTP / ServerPool.buildResponse pick the configured value (whatever    *)
+(*                media type the body is labelled with)                                           *)
 (*     Compress   (responses, compression active) compression.compress wraps the body: the length  *)
 (*                becomes unknown, the body grows by the gzip framing, and a source that breaks    *)
 (*                off makes the compress reader end with an error                                  *)
@@ -21,8 +22,11 @@
 EXTENDS ProxyMsgDefs
 
 CONSTANTS CodeDefault,    \* DefaultMaxPayloadSize of the code model: any value in [D.lo, D.hi] must do
-          HitLimit        \* "kept": the limit is selected per request (the code); "lost": negative control - a route
+          HitLimit,       \* "kept": the limit is selected per request (the code); "lost": negative control - a route
                           \* served from the cache has forgotten the limit (FetchPayload(0)), must violate the contract
+          Exempt          \* media type classes whose bodies the code model streams whatever the limit says: {} is the
+                          \* code (limit selection never looks at Content-Type); non-empty: negative control, must
+                          \* violate the contract (every wire of the scenario space carries a media type, w.ctype)
 
 D == LimD
 Inner == LimInner
@@ -47,7 +51,8 @@ Go(p) == pc' = p /\ UNCHANGED scn /\ UNCHANGED k
 Route   == /\ pc = "Route" /\ hit' = (cache /\ rc = "route") /\ rc' = (IF cache THEN "route" ELSE rc)
            /\ Go("Select") /\ UNCHANGED <<lim, cl, avail, bad, read, res>>
 Select  == /\ pc = "Select"
-           /\ lim' = (IF hit /\ HitLimit = "lost" THEN 0 ELSE IF inner # 0 THEN inner ELSE outer)
+           /\ lim' = (IF w.ctype \in Exempt THEN -1
+                      ELSE IF hit /\ HitLimit = "lost" THEN 0 ELSE IF inner # 0 THEN inner ELSE outer)
            /\ cl' = (IF w.enc = "cl" THEN w.declared ELSE -1) /\ avail' = w.actual /\ bad' = FALSE
            /\ Go(IF w.comp THEN "Compress" ELSE "Default") /\ UNCHANGED <<rc, hit, read, res>>
 Compress == /\ pc = "Compress" /\ cl' = -1 /\ avail' = avail + LimGz /\ bad' = Short(w)
